@@ -74,6 +74,12 @@ class Map:
         init = self.kwh(bat["init"])
         if bat["kind"] == "ideal":
             return Battery(self.capK, init, self.max_power())
+        self._built = getattr(self, "_built", 0) + 1
+        if self._built % 2 == 0:
+            # the documented signature (capacity, init_charge, max_power, noise_level, transition_soc, charge_calculation),
+            # every argument by position
+            return Linear2StageBattery(self.capK, init, self.max_power(), 1.0 if bat["noisy"] else 0,
+                                       (bat["td"] - bat["tn"]) / bat["td"], bat["kind"])
         return Linear2StageBattery(self.capK, init, self.max_power(), noise_level=1.0 if bat["noisy"] else 0,
                                    transition_soc=(bat["td"] - bat["tn"]) / bat["td"],
                                    charge_calculation=bat["kind"])
@@ -288,7 +294,13 @@ def run_sim(b, phys):
     with warnings.catch_warnings():
         warnings.simplefilter("ignore")
         net = ChargingNetwork()
-        net.register_evse(EVSE("E-1", max_rate=BIG_RATE), m.V, 0)
+        if int(jhash(b)[:2], 16) % 2:
+            # a finite-rate station whose levels lie 0.5 mA ABOVE the commanded pilots (inside the 1e-3 A acceptance band):
+            # what reaches the EV, and is recorded, is the commanded pilot - the recorded rate never exceeds it
+            from acnportal.acnsim.models import FiniteRatesEVSE
+            net.register_evse(FiniteRatesEVSE("E-1", sorted({p + 5e-4 for p in pilots if p > 0})), m.V, 0)
+        else:
+            net.register_evse(EVSE("E-1", max_rate=BIG_RATE), m.V, 0)
         ev = EV(0, len(ch), m.capK, "E-1", "s-1", m.battery())
         sim = Simulator(net, Scripted(), EventQueue([PluginEvent(0, ev)]), datetime(2020, 1, 1), period=period, verbose=False)
         # the draw of period k (a continuous battery does not draw at all when the pilot is 0)
